@@ -194,3 +194,42 @@ func VerifC09TopUp() {
 	}
 	vAssert(balOf(q) == x2-spent && supply() == sup, "C09/ticks-do-not-change-supply")
 }
+
+// Chained locks (registered under C01 and C09): u locks y1 on A until u1, then the Alphabet locks y2 <= y1 of A's
+// funds on B until u2 (a lock whose source is itself a lock account), one tick with a symbolic epoch. Param 1
+// swaps the two lock addresses, so that the tick meets the inner lock before the outer one and after it. Whatever
+// the order: supply = sum of balances, the tick does not change the supply, nobody goes negative, the
+// notifications of the tick reproduce every balance, and an unexpired lock keeps its funds.
+func VerifC09Chained() {
+	viaNetmap := vParam(0) == 1
+	deployBalanceWorld()
+	u, a, b := vAcct("p"), vAcct("L1"), vAcct("L2")
+	if vParam(1) == 1 {
+		a, b = b, a
+	}
+	x, y1, y2, u1, u2, e := vInt("x"), vInt("y1"), vInt("y2"), vInt("u1"), vInt("u2"), vInt("e")
+	vAssume(x >= 1 && x <= 1000000 && y1 >= 1 && y1 <= x && y2 >= 1 && y2 <= y1)
+	vAssume(u1 >= 1 && u1 <= 300 && u2 >= 1 && u2 <= 300 && e >= 1 && e <= 300)
+	vAssume(mint(u, x))
+	vAssume(lockFunds(1, u, a, y1, u1))
+	vAssume(lockFunds(2, a, b, y2, u2))
+	sup := supply()
+	vAssert(balOf(u)+balOf(a)+balOf(b) == sup && sup == x, "C01/setup-state-consistent")
+	pu, pa, pb := balOf(u), balOf(a), balOf(b)
+	vAssume(tick(viaNetmap, e))
+	cu, ca, cb := balOf(u), balOf(a), balOf(b)
+	vAssert(cu+ca+cb == supply(), "C01/sum-equals-supply")
+	vAssert(supply() == sup, "C09/ticks-do-not-change-supply")
+	vAssert(cu >= 0 && ca >= 0 && cb >= 0, "C01/non-negative")
+	vAssert(applyEvents(u, pu) == cu && applyEvents(a, pa) == ca && applyEvents(b, pb) == cb, "C01/notifications-reproduce-balances")
+	if u2 > e {
+		vAssert(cb == y2, "C09/not-released-before-until")
+	} else {
+		vAssert(cb == 0, "C09/released-at-first-tick-with-epoch>=until")
+	}
+	if u1 > e && u2 > e {
+		vAssert(cu == pu && ca == pa, "C09/not-released-before-until")
+	}
+	vCoverIf(u1 <= e && u2 <= e, "both-chained-locks-expired-at-one-tick")
+	vCoverIf(u1 > e && u2 <= e, "inner-lock-expired-first")
+}
